@@ -71,4 +71,30 @@ def formatAppend (a b : Val) : String := strV a ++ strV b
 def printed (x : Val) : String := strV x
 def printedLn (x : Val) : String := formatAppend (.str (strV x)) (.str "\n")
 
+/-- `a .. b .. c .. …`: the chain of `format_append`s, left to right (the intermediate results are strings,
+    on which `ToString.str` is the identity) -/
+def formatChain : List Val → String
+  | [] => ""
+  | v :: vs => vs.foldl (fun acc w => formatAppend (.str acc) w) (strV v)
+
+/-- one rendering statement of a program -/
+inductive Stmt where
+  | print (v : Val)
+  | println (v : Val)
+  | str (v : Val)            -- `let s = ToString.str(v); print(s)`
+  | chain (vs : List Val)    -- `print(v1 .. v2 .. …)`
+  | lit (s : String)         -- `print("…")` of a literal
+
+/-- the text a statement hands to `print_string`.  The model has no store: values are immutable, so what a
+    statement prints depends on its operands only — never on what was rendered before. -/
+def Stmt.emit : Stmt → String
+  | .print v => printed v
+  | .println v => printedLn v
+  | .str v => strV v
+  | .chain vs => formatChain vs
+  | .lit s => s
+
+/-- a sequence of rendering statements over the same values -/
+def emitAll (l : List Stmt) : String := String.join (l.map Stmt.emit)
+
 end Abra.Lib.Render
